@@ -77,9 +77,23 @@ impl FileFormatter {
 
         // A file named more than once (repeated or overlapping arguments) is formatted once:
         // two workers rewriting the same file in place would race with each other.
+        // (Hard links are other names of the same file, so on unix a file is identified by
+        // device and inode rather than by its canonical path.)
+        #[cfg(unix)]
+        fn file_identity(path: &Path) -> Option<(u64, u64)> {
+            use std::os::unix::fs::MetadataExt;
+            path.metadata().ok().map(|m| (m.dev(), m.ino()))
+        }
+        #[cfg(not(unix))]
+        fn file_identity(_: &Path) -> Option<(u64, u64)> {
+            None
+        }
         let mut seen = std::collections::HashSet::new();
         expanded_paths.retain(|path| match path {
-            Ok(path) => seen.insert(path.canonicalize().unwrap_or_else(|_| path.clone())),
+            Ok(path) => seen.insert(match file_identity(path) {
+                Some(id) => Ok(id),
+                None => Err(path.canonicalize().unwrap_or_else(|_| path.clone())),
+            }),
             Err(_) => true,
         });
 
